@@ -1914,6 +1914,13 @@ func (p *balloons) pinCpuMem(c cache.Container, cpus cpuset.CPUSet, mems idset.I
 			log.Debug("  - allocated %s to memory %s", c.PrettyName(), zone)
 			c.SetCpusetMems(zone.MemsetString())
 		}
+	} else if _, ok := p.memAllocator.AssignedZone(c.GetID()); ok {
+		// Memory pinning has been switched off for this container. Drop the
+		// allocation it got while pinned, otherwise a later allocation that
+		// moves it would pin the container again.
+		if err := p.memAllocator.Release(c.GetID()); err != nil {
+			log.Error("failed to release memory of unpinned %s: %v", c.PrettyName(), err)
+		}
 	}
 }
 
